@@ -15,11 +15,12 @@ ACTSETS = {
     "ReadB1": [("Read", "b1")],
     "WriteB2": [("Write", "b2")],
     "AdminB1": [("Admin", "b1")],
+    "ReadBstar": [("Read", "b*")],
     "None": [],
     # only used for the anonymous identity
     "WriteB1List": [("Write", "b1"), ("List", "")],
 }
-ACT_NAMES = ["Admin", "Read", "Write", "List", "Tagging", "ReadB1", "WriteB2", "AdminB1", "None"]
+ACT_NAMES = ["Admin", "Read", "Write", "List", "Tagging", "ReadB1", "WriteB2", "AdminB1", "ReadBstar", "None"]
 ANON_NAMES = ["absent", "Read", "WriteB1List"]
 POL_ACTS = ["s3:Get*", "s3:Put*", "s3:List*", "s3:*", "s3:DeleteObject", "s3:Tagging*"]
 POL_RES = ["arn:aws:s3:::b1/*", "arn:aws:s3:::*", "arn:aws:s3:::b2", "arn:aws:s3:::b2/*"]
@@ -66,23 +67,23 @@ def run(ctx):
     # 1+2. one TLC run per part: it model-checks the design invariants (decision table, model of the
     # gateway's procedure with the known deviations; reference policy translation) over the whole
     # abstract space and emits that space as the script (generator mode)
-    g = ctx.instance("G_S3Auth", "S3Auth", mc_cfg + "INVARIANT Emit\n", consts(1, kf))
-    gp = ctx.instance("G_S3AuthPol", "S3Auth", pol_cfg + "INVARIANT EmitPol\n", consts(2 if ctx.thorough else 1, kf))
-    with ThreadPoolExecutor(max_workers=3) as pool:
-        fb = pool.submit(ctx.build, "c26")
-        fh = pool.submit(ctx.generate, g, "W", 2, 900)
-        fp = pool.submit(ctx.generate, gp, "W", 2, 1500)
-        hists, pols, binp = fh.result(), fp.result(), fb.result()
-    if ctx.thorough and kf:
-        # without the known deviations the model of the gateway is NOT sound: TLC exhibits the bypass
-        mcs = ctx.instance("MC_S3AuthStrict", "S3Auth", "SPECIFICATION Spec\nINVARIANT GwSound\nCHECK_DEADLOCK FALSE",
-                           consts(1, set()))
-        ctx.model_check(mcs, workers=2, expect_violation="GwSound", coverage=False)
     pol_mode = None
     if ctx.replay:
-        script = pscript = ctx.replay
-        pol_mode = '"ev": "pol"' in open(script).read() or '"ev":"pol"' in open(script).read()
+        # a saved violation (or any recorded trace) is the script: requests and policy documents may be mixed
+        binp = ctx.build("c26")
     else:
+        g = ctx.instance("G_S3Auth", "S3Auth", mc_cfg + "INVARIANT Emit\n", consts(1, kf))
+        gp = ctx.instance("G_S3AuthPol", "S3Auth", pol_cfg + "INVARIANT EmitPol\n", consts(2, kf))
+        with ThreadPoolExecutor(max_workers=3) as pool:
+            fb = pool.submit(ctx.build, "c26")
+            fh = pool.submit(ctx.generate, g, "W", 2, 900)
+            fp = pool.submit(ctx.generate, gp, "W", 2, 1500)
+            hists, pols, binp = fh.result(), fp.result(), fb.result()
+        if ctx.thorough and kf:
+            # without the known deviations the model of the gateway is NOT sound: TLC exhibits the bypass
+            mcs = ctx.instance("MC_S3AuthStrict", "S3Auth",
+                               "SPECIFICATION Spec\nINVARIANT GwSound\nCHECK_DEADLOCK FALSE", consts(1, set()))
+            ctx.model_check(mcs, workers=2, expect_violation="GwSound", coverage=False)
         total = len(hists)
         if not ctx.thorough:
             # stratified: every (route, style) pair three times, then a seeded sample
@@ -109,10 +110,10 @@ def run(ctx):
                 f.write(json.dumps({"ev": "reset", "gw": an, "zcfg": cfgs[an]}) + "\n")
                 for op in h:
                     f.write(json.dumps(op) + "\n")
-        if not ctx.thorough:
-            # TLC enumerated every single statement; documents of two statements are seeded pairs of them
-            singles = [p[0]["stmts"][0] for p in pols]
-            pols = pols + [[{"ev": "pol", "stmts": [rng.choice(singles), rng.choice(singles)]}] for _ in range(3000)]
+        # TLC enumerated every single statement; add seeded documents of two full statements
+        singles = [p[0]["stmts"][0] for p in pols if len(p[0]["stmts"]) == 1]
+        pols = pols + [[{"ev": "pol", "stmts": [rng.choice(singles), rng.choice(singles)]}]
+                       for _ in range(20000 if ctx.thorough else 1500)]
         ctx.notes["policy_documents_run"] = len(pols)
         with open(pscript, "w") as f:
             for h in pols:
@@ -144,26 +145,34 @@ def run(ctx):
                 return m
         return None
 
-    traces = []
-    if pol_mode is not True:
-        traces.append(ctx.drive(binp, ["--script", script], timeout=1500))
-    if pol_mode is not False:
-        traces.append(ctx.drive(binp, ["--script", pscript, "--mode", "iam"], name="pol_trace"))
     nt = lambda e: nontrivial(e) or '"a":' in "".join(e)
-    if ctx.thorough or len(traces) == 1:
-        for t, m in zip(traces, [mutate, mutate_pol] if pol_mode is None else [mutate_pol if pol_mode else mutate]):
-            ctx.judge("S3AuthTrace", t, "trace_base.cfg", cons, nontrivial=nt, mutate=m,
-                      label="pol" if m is mutate_pol else "req")
+    if ctx.replay:
+        # the gateway configuration files are rewritten under this run's scratch directory
+        rs = os.path.join(ctx.out, "replay.ndjson")
+        with open(rs, "w") as f:
+            for line in open(ctx.replay):
+                e = json.loads(line)
+                if e.get("ev") == "reset" and "gw" in e:
+                    e["zcfg"] = cfgs[e["gw"]]
+                f.write(json.dumps(e) + "\n")
+        trace = ctx.drive(binp, ["--script", rs], timeout=1500)
+        ctx.judge("S3AuthTrace", trace, "trace_base.cfg", cons, nontrivial=nt)
     else:
-        # quick: one judge run over both traces; the binding self-test alternates with the seed
-        both = os.path.join(ctx.out, "both.ndjson")
-        with open(both, "w") as f:
-            for t in traces:
-                f.write(open(t).read())
-        ctx.judge("S3AuthTrace", both, "trace_base.cfg", cons, nontrivial=nt,
-                  mutate=mutate if ctx.seed % 2 else mutate_pol)
+        traces = [ctx.drive(binp, ["--script", script], timeout=1500),
+                  ctx.drive(binp, ["--script", pscript, "--mode", "iam"], name="pol_trace")]
+        if ctx.thorough:
+            ctx.judge("S3AuthTrace", traces[0], "trace_base.cfg", cons, nontrivial=nt, mutate=mutate, label="req")
+            ctx.judge("S3AuthTrace", traces[1], "trace_base.cfg", cons, nontrivial=nt, mutate=mutate_pol, label="pol")
+        else:
+            # quick: one judge run over both traces; the binding self-test alternates with the seed
+            both = os.path.join(ctx.out, "both.ndjson")
+            with open(both, "w") as f:
+                for t in traces:
+                    f.write(open(t).read())
+            ctx.judge("S3AuthTrace", both, "trace_base.cfg", cons, nontrivial=nt,
+                      mutate=mutate if ctx.seed % 2 else mutate_pol)
     ctx.rule = ("requests = TLC-enumerated abstract requests route(23) x auth style(10) x credential kind x identity "
-                "action set(9) x anonymous configuration(3) (quick: stratified seeded sample, thorough: all), each "
+                "action set(10) x anonymous configuration(3) (quick: stratified seeded sample, thorough: all), each "
                 "instantiated as a real signed HTTP request against a real gateway+filer; non-trivial = the request "
                 "reached the filer (some filer call or a namespace change); policies = TLC-enumerated IAM documents of "
                 "1-2 statements given to the real GetActions; non-trivial = some action granted; distinct by hash")
